@@ -207,6 +207,13 @@ theorem C03_witness_cycle_below_start :
     Revisits (lookupIn cycleBelow) 64 (sAllOf [sAllOf [sRef "B"], sObj []]) [defRef "A"] :=
   (circAnc_iff _ 64 "A" _ _).mp (by decide +kernel)
 
+/-- two definitions that are bare references to each other, inherited from by a third: circular (the code looped for ever
+    on this before the `fix:` commit) -/
+def aliasCycle : List (String × Schema) := [("AlA", sRef "AlB"), ("AlB", sRef "AlA"), ("AlC", sAllOf [sRef "AlA", sObj []])]
+theorem C03_witness_alias_cycle :
+    (duplicatePropertyErrs (lookupIn aliasCycle) aliasCycle).map (·.tag) = ["circularAncestryDefinition:AlC|[#/definitions/AlA]"] := by
+  decide +kernel
+
 /-- non-vacuity: a view with two operations that meets every rule -/
 def vGood : View :=
   { pathKeys := ["/a/{id}", "/b"],
